@@ -26,7 +26,7 @@ type floatCtx struct {
 	seenPt  map[string]bool
 	seenR   map[string]bool
 	relerr  bool
-	inputs  []fpoint // representable numbers coming from outside (parameters, heap loads, call results)
+	inputs  []fpoint          // representable numbers coming from outside (parameters, heap loads, call results)
 	intOf   map[string]string // v-term -> integer term I with: |I| <= 2^53 (and the same for its operands) ==> v == to_real(I)
 	intCond map[string]string
 }
